@@ -346,9 +346,15 @@ func TestC05(t *testing.T) {
 	r.ClassN("discrepancies-unlisted", int64(unknown))
 	r.Extra("universe_types", n)
 	r.Extra("constants", len(c05Consts))
-	r.Sample(func() any { return map[string]any{"question": "assignable", "V": w.names[1], "T": w.names[18], "oracle": types.AssignableTo(w.typs[1], w.typs[18])} })
-	r.Sample(func() any { return map[string]any{"question": "assignable-const", "T": "int8", "const": "128", "oracle": false} })
-	r.Sample(func() any { return map[string]any{"question": "comparable", "V": w.names[33], "T": w.names[35], "oracle_stmt": "_ = v33 == v35"} })
+	r.Sample(func() any {
+		return map[string]any{"question": "assignable", "V": w.names[1], "T": w.names[18], "oracle": types.AssignableTo(w.typs[1], w.typs[18])}
+	})
+	r.Sample(func() any {
+		return map[string]any{"question": "assignable-const", "T": "int8", "const": "128", "oracle": false}
+	})
+	r.Sample(func() any {
+		return map[string]any{"question": "comparable", "V": w.names[33], "T": w.names[35], "oracle_stmt": "_ = v33 == v35"}
+	})
 }
 
 // c05Constructs asks the same question through each construct: a one-statement program per
@@ -372,7 +378,7 @@ var c05ConstructTmpl = []struct{ name, stmt string }{
 func c05Constructs(t *testing.T, r *hx.Run, w *c05World) {
 	type point struct {
 		ci, vi, ti int
-		e        string
+		e          string
 	}
 	var pts []point
 	nTyped := len(c05TypeExprs)
